@@ -226,4 +226,8 @@ def run(F, rep):
     from engines import rule_loop_state
     rule_loop_state(F, rep, 'C17.S1', lambda g: g.file.endswith('/generator.cpp'), 'generator.cpp')
 
+    # ------------------------------------------------------------------ every element of a collection is handled
+    from engines import rule_visit_all
+    rule_visit_all(F, rep, 'C17.Y1', lambda g: g.file.endswith('/generator.cpp'), 8, 'generator.cpp')
+
 
